@@ -252,7 +252,7 @@ Next == \/ \E s \in Nodes, d \in Targets, k \in {"strong", "weak"}, h \in Holder
 
 \* all small graphs: commit, then B through its life-cycle with a traversal at every stage, pack, traversal
 \* (the whole case is printed by the Commit step; the B part by folding BStep over the script)
-GraphScript == <<"LoadElsewhere", "MinimizeAllB", "LoadElsewhere", "ResetCaches", "CloseB", "LoadElsewhere",
+GraphScript == <<"LoadElsewhere", "MinimizeAllB", "CloseB", "LoadElsewhere", "ResetCaches", "CloseB", "LoadElsewhere",
                  "Pack", "LoadElsewhere">>
 RECURSIVE RunScript(_, _, _)
 RunScript(sc, i, b) == IF i > Len(sc) THEN <<>>
